@@ -41,6 +41,7 @@ def check(prog, run):
         except L.Unanalysable as e:
             run.bad("R1", "unanalysable %s" % name, str(e))
             continue
+        segs = _canon_and(segs)
         prods[name] = segs
         ok, why = converter_shape(segs)
         run.check(ok, "R1", "shape %s" % name.split("::")[-1], why, "converter does not have the required production: " + why, mir.loc_of(u.bodies[name]))
@@ -222,6 +223,21 @@ def r4_scanner(prog, run):
     run.floor("R4", nnone, 2, "None exits")
 
 
+def _canon_and(x):
+    """conjunctions of pure conditions in a canonical operand order (`a && b` == `b && a`), emptiness test first"""
+    if isinstance(x, tuple):
+        y = tuple(_canon_and(z) for z in x)
+        if len(y) == 4 and y[0] == "bin" and y[1] == "And":
+            a, c = y[2], y[3]
+            ka, kc = (0 if a[:1] == ("empty",) else 1, repr(L.strip_ids(L.freeze(a)))), (0 if c[:1] == ("empty",) else 1, repr(L.strip_ids(L.freeze(c))))
+            if kc < ka:
+                return ("bin", "And", c, a)
+        return y
+    if isinstance(x, list):
+        return [_canon_and(z) for z in x]
+    return x
+
+
 def converter_shape(segs):
     if len(segs) != 2:
         return False, "expected loop + fall-back, found %d segments: %s" % (len(segs), ", ".join(L.show(s) for s in segs)[:200])
@@ -240,6 +256,8 @@ def converter_shape(segs):
         return False, "no whole-input fall-back"
     c = fb[1]
     d = ("param", "data")
+    if c[0] == "bin" and c[1] == "And" and c[3][0] == "empty" and c[2][0] != "empty":
+        c = ("bin", "And", c[3], c[2])          # both operands are pure: `a && b` is `b && a`
     cond_ok = c[0] == "bin" and c[1] == "And" and c[2][0] == "empty" and c[3] == ("un", "Not", ("mcall", "core::slice::is_empty", d, ()))
     # the emptiness test must be about what the loop produced
     if cond_ok:
